@@ -62,6 +62,34 @@ def _signbit(x) -> bool:
     return x.s if isinstance(x, Float) else x < 0
 
 
+def _holds_list(val) -> bool:
+    """Does *val* contain a list -- the one kind of value a program can mutate?"""
+    match val:
+        case list():
+            return True
+        case tuple():
+            return any(_holds_list(v) for v in val)
+        case _:
+            return False
+
+
+class _FindsMutation(DefaultVisitor):
+    """Can the function write to a list after it was bound?  An element store
+    does, and so may a callee handed the list: either way a name bound to a
+    known list no longer names a known value (the store may go through an alias,
+    so it is not enough to forget the stored-to name)."""
+
+    found: bool = False
+
+    def _visit_indexed_assign(self, stmt: IndexedAssign, ctx: None):
+        self.found = True
+
+    def _visit_call(self, e: Call, ctx: None):
+        if e.args and not (isinstance(e.fn, type) and issubclass(e.fn, Context)):
+            self.found = True
+        super()._visit_call(e, ctx)
+
+
 class _PartialEvalInstance(DefaultVisitor):
     """
     Partial evaluation instance for a function.
@@ -84,6 +112,9 @@ class _PartialEvalInstance(DefaultVisitor):
         self.rt = get_default_interpreter()
         self.by_def = {}
         self.by_expr = {}
+        finder = _FindsMutation()
+        finder._visit_function(func, None)
+        self.mutates_lists = finder.found
 
     def apply(self) -> PartialEvalInfo:
         self._visit_function(self.func, None)
@@ -336,7 +367,12 @@ class _PartialEvalInstance(DefaultVisitor):
             case Id():
                 if isinstance(binding, NamedId):
                     d = self.def_use.find_def_from_site(binding, site)
-                    self.by_def[d] = val
+                    if self.mutates_lists and _holds_list(val):
+                        # the list may be written to later, through this name or
+                        # an alias of it: the name does not keep this value
+                        self.by_def.pop(d, None)
+                    else:
+                        self.by_def[d] = val
             case TupleBinding():
                 assert isinstance(val, tuple)
                 for elt, v in zip(binding.elts, val):
@@ -447,7 +483,9 @@ class _PartialEvalInstance(DefaultVisitor):
             if str(name) not in func.env:
                 raise KeyError(f'free variable `{name}` missing from env')
             d = self.def_use.find_def_from_site(name, func)
-            self.by_def[d] = to_value(func.env[str(name)])
+            val = to_value(func.env[str(name)])
+            if not (self.mutates_lists and _holds_list(val)):
+                self.by_def[d] = val
 
         # visit statements
         self._visit_block(func.body, fctx)
